@@ -4,7 +4,7 @@ Spec symbols: Sig / siglen (A3), sha1 as an uninterpreted function (A6).
 """
 from pyvc.api import *  # noqa: F403
 
-from contracts.common import RUST_MODELS, TASK_STUBS  # noqa: F401
+from contracts.common import PEER_OBJ, RUST_MODELS, TASK_STUBS  # noqa: F401
 
 try:
     from ipv8.dht.community import DHTCommunity  # noqa: F401
@@ -288,3 +288,25 @@ contract(f"{DC}::DHTCommunity.token_maintenance", "token_maintenance.at-most-two
          ensures=["result == min(times, 2)", "self.token_secrets.maxlen == 2"],
          bounded="1..4 rotations from the constructor's initial state",
          note="the third rotation forgets the first secret: tokens derived from it stop being honoured")
+
+
+# ---------------------------------------------------------------------------------------------------------------------
+# tokens are bound to the requester's CURRENT address: every request that is not dropped goes through RoutingTable.add with a node made
+# from the peer's key and the address the request came from (Bucket.add refreshes a known node's address - C14), and the node handed to
+# generate_token / check_token is the one the table returns for it
+contract(f"{DC}::DHTCommunity.get_requesting_node", "get_requesting_node.refreshes-the-requesters-address",
+         vars={"known": OPT(OBJ("ipv8/dht/routing.py::Node", blocked=BOOL, last_queries=EXPR("deque(maxlen=10)"))), "stored": ANY,
+               "table": EFFECT("table", has={"returns": EXPR("known is not None")}, get={"returns": EXPR("known")},
+                               add={"returns": OPT(OBJ("ipv8/dht/routing.py::Node", last_queries=EXPR("deque(maxlen=10)")))}),
+               "peer": PEER_OBJ(key=ANY), "self": OBJ(f"{DC}::DHTCommunity", logger=LOGGER())},
+         requires=["freeze_time(1000.0)"], call="self.get_requesting_node(peer)", raises=[],
+         stubs={f"{DC}::DHTCommunity.get_routing_table": {"returns": "table", "note": "address-family specific table"},
+                "ipv8/dht/routing.py::Node.__init__": {"event": "mk_node", "havoc": {"self._address": ADDRESS, "self.last_queries": EXPR("deque(maxlen=10)")},
+                                                       "note": "Node(key, address): construction from the peer's key and source address"},
+                "ipv8/dht/routing.py::Node.id": {"returns": "b'id'", "note": "node id (hash of address prefix and mid): C14"},
+                "ipv8/dht/routing.py::Node.blocked": {"returns": "self is known and nondet_bool()", "note": "rate limiting of a known node"}},
+         on_effect={"mk_node": ["ev.named['address'] == peer.address"]},
+         ensures=["result is None or len(calls('table.add')) == 1",
+                  "result is None or calls('table.add')[0].args[0] is calls('mk_node')[0].named['self']",
+                  "len(calls('mk_node')) == 1"],
+         note="a known requester's stored address is refreshed on every request before a token is generated or checked for it")
